@@ -242,3 +242,112 @@ def c20(tier, seed):
         "inside and outside the inner DAG (id prefixing must keep them apart)",
         assumptions=ASSUME_DIFF, required_reach=["value_comparisons", "programs"], parallel=8 if tier == "quick" else 16,
     )
+
+
+# ------------------------------------------------------------------------------------------------ selection / debug
+@plan("C12")
+def c12(tier, seed):
+    jobs = []
+    if tier == "quick":
+        jobs.append(dict(kind="sel", exhaustive_n=[2, 3], random_shapes=0, **_seeds(seed, 0)))
+        for p in range(4):
+            jobs.append(dict(kind="sel", exhaustive_n=[], random_shapes=25, nmin=4, nmax=8, triples_per_shape=40, **_seeds(seed, 1 + p)))
+        ex = "all DAGs on 2..3 nodes x every (R, X, T)"
+    else:
+        jobs.append(dict(kind="sel", exhaustive_n=[2, 3], random_shapes=0, **_seeds(seed, 0)))
+        for p in range(16):
+            jobs.append(dict(kind="sel", exhaustive_n=[4], part=p, nparts=16, random_shapes=120, nmin=5, nmax=9, triples_per_shape=60, **_seeds(seed, 1 + p)))
+        ex = "all DAGs on 2..4 nodes x every (R, X, T)"
+    return dict(
+        jobs=jobs, level="exploration", exhaustive=True,
+        rule="exhaustive: " + ex + " with R over the non-empty subsets of the argument-less roots, X over subsets (size<=2) of the part "
+        "selected by R, T over all subsets of nodes (invalid triples included: they must raise ValueError and run nothing); sampled "
+        "triples on random DAGs with 4..9 nodes; aliases drawn from {node id, ExecNode reference, tag, shared tag, tag equal to another "
+        "node's id}; with and without setup nodes; executed set (FENTER events) == the monitor's own three-step closure, returned tuple "
+        "== reference run restricted to the closure (None elsewhere); distinct = distinct (shape, setup set, triple)",
+        assumptions=["closure oracle: induced-subgraph semantics at each step in the documented order roots -> exclude -> targets",
+                     "root_nodes are drawn from call sites without any argument (a call site with only constant/DAG-argument inputs is not a root for the code; DESIGN 6.4)",
+                     "a string alias is resolved as a tag first, then as a node id (documented precedence)"],
+        required_reach=["c12_valid_triples", "c12_invalid_triples", "c12_value_checks", "FENTER"], parallel=8 if tier == "quick" else 16,
+    )
+
+
+@plan("C13")
+def c13(tier, seed):
+    jobs = []
+    if tier == "quick":
+        for p in range(6):
+            jobs.append(dict(kind="dbg", random_shapes=25, nmax=8, **_seeds(seed, p)))
+        jobs.append(dict(kind="dbg", random_shapes=0, exhaustive_n=[2, 3], **_seeds(seed, 9)))
+    else:
+        for p in range(16):
+            jobs.append(dict(kind="dbg", random_shapes=250, nmax=9, exhaustive_n=[4], part=p, nparts=16, **_seeds(seed, p)))
+        jobs.append(dict(kind="dbg", random_shapes=0, exhaustive_n=[2, 3], **_seeds(seed, 99)))
+    return dict(
+        jobs=jobs, level="exploration",
+        rule="DAG shapes (all on 2..3 nodes, thorough: ..4; random up to 9 nodes) with a random descendant-closed set of debug nodes (chains, "
+        "multi-parent debug nodes) and optional setup nodes x {call, 5 random executors with root/exclude/target selections that may name "
+        "debug nodes, setup(), setup(target)} x RUN_DEBUG_NODES off/on on freshly built DAGs; flag off: no debug FENTER; flag on: whole-DAG "
+        "call runs every debug node once, a pulled-in debug node (outside the closure) has every dependency executed; non-debug executed "
+        "sets, inputs and returned values identical in both settings; an illegal DAG (non-debug depends on debug) must fail to build; "
+        "distinct = distinct (shape, debug set, operation)",
+        assumptions=["RUN_DEBUG_NODES is process-global (tawazi.config.cfg): toggled between cases, single-threaded",
+                     "a debug node inside the closure with a parent cut away by root_nodes follows C12 semantics and is not flagged (DESIGN 6.10)"],
+        required_reach=["c13_flag_off_checks", "c13_whole_call_flag_on", "c13_pulled_in_debug_nodes", "c13_on_off_comparisons", "c13_illegal_build_rejected"],
+        parallel=8 if tier == "quick" else 16,
+    )
+
+
+# ------------------------------------------------------------------------------------------------ histories
+@plan("C11")
+def c11(tier, seed):
+    nj, nh = (8, 60) if tier == "quick" else (32, 700)
+    return dict(
+        jobs=[dict(kind="hist11", n_histories=nh, **_seeds(seed, k)) for k in range(nj)],
+        level="exploration",
+        rule="random histories (3..9 operations) over {call(args), executor(target selection)(args), setup(), setup(target_nodes), deepcopy} on "
+        "generated DAGs (3..7 call sites, 1..4 setup nodes: independent, chained, one setup function reused with different constants), "
+        "sync and async flavour, several live deep copies per history; sequential model per instance {setup id -> first value}; setup "
+        "probes return a term carrying a global invocation number so that recomputed != reused; after every operation: executed set == "
+        "selection minus already-set-up nodes, each once, no setup node twice on one instance, returned value == reference evaluated "
+        "with the recorded first values; illegal DAGs (setup depending on a non-setup node / on a DAG argument) must fail to build; "
+        "distinct = distinct (program, history)",
+        assumptions=["successful operations only (as the property states)", "selections use target_nodes; C12 owns exclude/root semantics"],
+        required_reach=["c11_ops", "c11_setup_entries", "c11_value_checks", "c11_deepcopies", "c11_illegal_build_rejected"],
+        parallel=8 if tier == "quick" else 16,
+    )
+
+
+@plan("C15")
+def c15(tier, seed):
+    nj, nh = (8, 50) if tier == "quick" else (32, 600)
+    return dict(
+        jobs=[dict(kind="hist15", n_histories=nh, **_seeds(seed, k)) for k in range(nj)],
+        level="exploration",
+        rule="random histories (2..8 operations) over {call with full args, call omitting the defaulted argument, executor create+run, executor "
+        "created but not run, compose(...)+run of the composed DAG, config_from_dict reload, failing call (injected node fault), call with "
+        "a missing required argument, call with a surplus argument, executor re-run after a failed first run, executor re-run after a "
+        "successful first run} followed by one more call; every checked call uses fresh argument nonces and must return the reference "
+        "value for its own arguments and execute exactly the active call sites; an executor's second run must raise TawaziUsageError or "
+        "execute its complete selection and return the right value; distinct = distinct (program, history)",
+        assumptions=["DAGs without setup nodes (C11 owns setup state)", "the DAG-level results key set is additionally compared before/after (internal attribute, secondary evidence)"],
+        required_reach=["c15_checked_calls", "c15_executor_reruns_after_failure", "c15_executor_reruns_after_success"],
+        parallel=8 if tier == "quick" else 16,
+    )
+
+
+@plan("C18")
+def c18(tier, seed):
+    nj, nc = (8, 50) if tier == "quick" else (32, 600)
+    return dict(
+        jobs=[dict(kind="cache18", n_cases=nc, **_seeds(seed, k)) for k in range(nj)],
+        level="exploration",
+        rule="generated DAGs (3..7 call sites, all resources) x caching selection in {whole DAG, target nodes, cache_deps_of=[n]} written with "
+        "cache_in, then a restart with from_cache on the same or a freshly built DAG with the caching run's arguments and a restart "
+        "selection in {whole, same targets, other targets, cache_deps_of}; the pickle is inspected (cache_deps_of: every ancestor result of "
+        "n, not n); restart: no FENTER of a node whose id is a key of the file, executed set == selection minus cached, value == un-cached "
+        "reference; symbolic terms re-intern on unpickling so identity comparison survives; distinct = distinct (program, caching kw, restart kw)",
+        assumptions=["the restart uses the caching run's arguments (restarting with other arguments is not determined by the statement)"],
+        required_reach=["c18_cache_files", "c18_restarts", "c18_value_checks", "c18_cache_deps_of_restarts"],
+        parallel=8 if tier == "quick" else 16,
+    )
